@@ -14,7 +14,7 @@ def run(tier, seed):
     cases += lc.run_family(vlib, "store", work, r, fresh=True)
     cases += lc.run_family(vlib, "param", work, r, fresh=True)
     # the builder also assembles call/cc and with-handler forms: all programs within the budget
-    res = vlib.run_tlc("Lang", "MC_Lang_build_quick.cfg" if tier == "quick" else "MC_Lang_build.cfg", work, workers=8, timeout=1500)
+    res = vlib.run_tlc("Lang", "MC_Lang_build_quick.cfg" if tier == "quick" else "MC_Lang_build.cfg", work, workers=8, timeout=(1500 if tier == "quick" else 3600))
     r.add_tlc(res)
     built = [lc.to_case(c, "L") for c in res["cases"] if any(("call/cc" in u["src"] or "with-handler" in u["src"]) for u in c["units"])]
     cases += lc.dedup(built)
